@@ -126,6 +126,24 @@ func galias(args []string) error {
 							clone = pj.Clone(cloneDst[w]) // capacity reuse of an earlier clone
 							cloneDst[w] = clone
 						}
+					case "reuse":
+						// the object goes back to the parser as its reuse argument and now holds [42,"other"]
+						other := []byte(`[42,"other"]`)
+						if h.Field("who").S == "c" {
+							np, perr := simdjson.Parse(other, clone)
+							if perr != nil {
+								bad("reuse", "the other document parses into the clone", perr.Error())
+								return
+							}
+							clone = np
+						} else {
+							np, perr := simdjson.Parse(other, pj)
+							if perr != nil {
+								bad("reuse", "the other document parses into the original", perr.Error())
+								return
+							}
+							pj = np
+						}
 					case "edit":
 						target := pj
 						if h.Field("who").S == "c" {
@@ -204,6 +222,9 @@ func histString(h []tla.Value) []string {
 		op := e.Field("op").S
 		if op == "edit" {
 			op = fmt.Sprintf("edit(%s,%v,%s)", e.Field("who").S, e.Field("p").IntSlice(), e.Field("k").S)
+		}
+		if op == "reuse" {
+			op = fmt.Sprintf("reuse(%s)", e.Field("who").S)
 		}
 		out = append(out, op)
 	}
